@@ -64,6 +64,9 @@ class Info(object):
         self.disk = False     # variables are netCDF4.Variable objects
         self.coordvals = {}   # dim name -> list of float (1-D var named d)
         self.masked = []      # names of masked in-memory variables
+        self.ndcoords = {}    # N-D coordinate candidates: name -> (dims,
+        #                       [dimension names along which every column is
+        #                       strictly monotonic])
         self.vglvls = None
         self.nvars = None     # IOAPI: the NVARS attribute
         self.coords = ()
@@ -174,6 +177,25 @@ def info_of_file(f):
             a = np.ma.filled(np.ma.asarray(f.variables[d][...]).astype('f8'),
                              np.nan)
             i.coordvals[d] = [float(x) for x in np.asarray(a).ravel()]
+    if i.cls != 'ioapi':
+        for k, (vd, kind) in i.vars.items():
+            if kind != 'f' or len(vd) < 2 or len(set(vd)) != len(vd) or \
+                    k in i.dims or any(i.dims[d][0] < 1 for d in vd):
+                continue
+            a = np.ma.asarray(f.variables[k][...])
+            if np.ma.getmaskarray(a).any():
+                continue
+            a = np.asarray(np.ma.getdata(a), dtype='f8')
+            axes = []
+            for ax, d in enumerate(vd):
+                if a.shape[ax] < 2:
+                    continue
+                df = np.diff(a, axis=ax)
+                if np.isfinite(df).all() and (
+                        ((df > 0).all(axis=ax) | (df < 0).all(axis=ax)).all()):
+                    axes.append(d)
+            if axes:
+                i.ndcoords[k] = (vd, axes)
     if i.cls == 'ioapi' and hasattr(f, 'VGLVLS'):
         i.vglvls = [float(x) for x in np.asarray(f.VGLVLS).ravel()]
     if i.cls == 'ioapi':
@@ -230,6 +252,8 @@ def info_of_spec(fs):
             i.masked.append(v['name'])
         if v.get('coord') and len(v['dims']) == 1:
             i.coordvals[v['name']] = [float(x) for x in v['data']]
+        if v.get('ndcoord'):
+            i.ndcoords[v['name']] = (tuple(v['dims']), [v['ndcoord']])
     if route.startswith('disk'):
         i.coords = tuple(k for k in i.dims if k in i.vars)
     elif fs.get('coordkeys') and route in ('create', 'from_ncf'):
@@ -439,6 +463,51 @@ def generic_specs(draw, char=False, routes=ROUTES, **opts):
                                dtype=draw(st.sampled_from(['f8', 'f4'])),
                                data=vals, mask=None, fill=None, attrs={},
                                coord=True))
+    # an N-D coordinate variable (e.g. a height field zc(time, lev, y)):
+    # every column along one axis strictly monotonic, declared on the axis
+    # order of a variable - which in general is NOT the order in which the
+    # file declares its dimensions - plus, often, a data variable on exactly
+    # its dimensions (interpDimension(dimkey, new, coordkey=...))
+    big = [d[0] for d in fs['dims'] if d[1] >= 2]
+    if len(fs['dims']) >= 2 and big and not char and \
+            draw(st.integers(0, 3)) == 0:
+        dl = dict((d[0], d[1]) for d in fs['dims'])
+        tuples = [tuple(v['dims']) for v in fs['vars']
+                  if len(v['dims']) >= 2 and any(x in big for x in v['dims'])]
+        if tuples and draw(st.booleans()):
+            vd = list(draw(st.sampled_from(tuples)))
+        else:
+            rk = draw(st.integers(2, min(3, len(fs['dims']))))
+            vd = list(draw(st.permutations([d[0] for d in fs['dims']]))[:rk])
+            if not any(x in big for x in vd):
+                vd[draw(st.integers(0, rk - 1))] = big[0]
+                vd = list(OD.fromkeys(vd))
+        if len(vd) >= 2:
+            axd = draw(st.sampled_from([x for x in vd if x in big]))
+            ax = vd.index(axd)
+            shape = [dl[x] for x in vd]
+            n = shape[ax]
+            ncol = int(np.prod(shape)) // n
+            starts = draw(st.lists(st.integers(-20, 20), min_size=ncol,
+                                   max_size=ncol))
+            steps = draw(st.lists(st.integers(1, 4), min_size=n, max_size=n))
+            sign = draw(st.sampled_from([1, 1, -1]))
+            col = sign * np.cumsum(steps)
+            oshape = [x for j, x in enumerate(shape) if j != ax]
+            arr = np.array(starts, dtype='f8').reshape(oshape)
+            arr = np.expand_dims(arr, ax) + col.reshape(
+                [n if j == ax else 1 for j in range(len(shape))])
+            fs['vars'].append(dict(name='zc', dims=vd, dtype='f8',
+                                   data=[float(x) for x in arr.ravel()],
+                                   mask=None, fill=None, attrs={},
+                                   ndcoord=axd))
+            if draw(st.booleans()):
+                size = int(np.prod(shape))
+                fs['vars'].append(dict(
+                    name='zv', dims=vd, dtype='f4',
+                    data=[float(x) for x in draw(st.lists(
+                        st.integers(-40, 40), min_size=size, max_size=size))],
+                    mask=None, fill=None, attrs={}))
     # coordinates declared through setCoords (in-memory routes): 1-D
     # coordinate variables and/or arbitrary (2-D, masked) variables; they are
     # excluded from arithmetic and ride along in subsetVariables/eval
@@ -714,7 +783,22 @@ def draw_binop(draw, info):
         kinds += ['meanrm', 'meanrm', 'rendim']
         if len(info.dims) >= 2:
             kinds.append('reorder')
+    # an operand with MORE axes (an ensemble / time axis inserted in front
+    # of or inside the variables), length 1 and > 1
+    kinds += ['insdim', 'insdim']
     kind = draw(st.sampled_from(kinds))
+    # both operand orders: derived <op> receiver as well
+    swap = kind in ('meanrm', 'rendim', 'reorder', 'insdim') and \
+        draw(st.booleans())
+    if kind == 'insdim':
+        names = list(info.dims)
+        where = draw(st.sampled_from(['none', 'none', 'before', 'after']))
+        ref = draw(st.sampled_from(names)) if names and where != 'none' \
+            else None
+        return dict(op=op, other=['insdim', info.fresh('k'),
+                                  draw(st.sampled_from([1, 2, 2, 3])),
+                                  where if ref else 'none', ref],
+                    swap=swap, _ood='binop-nonconforming')
     if kind == 'subset':
         k = draw(st.integers(1, len(data) - 1))
         keys = list(draw(st.permutations(data))[:k])
@@ -723,15 +807,16 @@ def draw_binop(draw, info):
         # the leading dimension of some variable broadcasts; others may not
         lead = [vd[0] for vd, _ in info.vars.values() if vd and vd[0] in pos]
         d = draw(st.sampled_from(lead + lead + pos))
-        return dict(op=op, other=['meanrm', d], _ood='binop-nonconforming')
+        return dict(op=op, other=['meanrm', d], swap=swap,
+                    _ood='binop-nonconforming')
     if kind == 'rendim':
         d = draw(st.sampled_from(pos))
-        return dict(op=op, other=['rendim', d, info.fresh('q')],
+        return dict(op=op, other=['rendim', d, info.fresh('q')], swap=swap,
                     _ood='binop-nonconforming')
     if kind == 'reorder':
         names = list(info.dims)
         new = list(draw(st.permutations(names)))
-        return dict(op=op, other=['reorder', names, new],
+        return dict(op=op, other=['reorder', names, new], swap=swap,
                     _ood='binop-nonconforming')
     return dict(op=op, other=[kind])
 
@@ -750,8 +835,38 @@ def interp_dims(info):
             if d in info.dims and _monotonic(vals)]
 
 
+def interp_nd(info):
+    """(coordkey, dim, free) : N-D coordinate variables usable with
+    interpDimension(dim, new, coordkey=coordkey).  Only variables on exactly
+    the coordinate's dimensions are interpolated, every other variable is
+    copied: the target length is free only when no other variable holds the
+    dimension, otherwise it must keep the length"""
+    out = []
+    for ck, (vd, axes) in info.ndcoords.items():
+        if ck not in info.vars or info.vars[ck][0] != vd:
+            continue
+        for d in axes:
+            if d not in info.dims or info.dims[d][0] < 2:
+                continue
+            free = all(d not in od or od == vd
+                       for od, _ in info.vars.values())
+            out.append((ck, d, free))
+    return out
+
+
 def draw_interp(draw, info):
-    d = draw(st.sampled_from(interp_dims(info)))
+    nd = interp_nd(info)
+    one = interp_dims(info)
+    if nd and (not one or draw(st.integers(0, 2)) > 0):
+        ck, d, free = draw(st.sampled_from(nd))
+        n = info.dims[d][0]
+        m = draw(st.integers(1, 4)) if free else n
+        extrap = draw(st.booleans())
+        lo, hi = (-1, 5) if extrap else (0, 4)
+        fr = draw(st.lists(st.integers(lo, hi), min_size=m, max_size=m))
+        return dict(dim=d, coordkey=ck, fracs=[x / 4.0 for x in fr],
+                    extrapolate=extrap)
+    d = draw(st.sampled_from(one))
     vals = info.coordvals[d]
     lo, hi = min(vals), max(vals)
     m = draw(st.integers(1, 4))
@@ -833,7 +948,7 @@ def applicable(info):
             if any(k.isidentifier() and not k.endswith('TFLAG')
                    for k in info.vars):
                 ops.append('eval')
-        if interp_dims(info):
+        if interp_dims(info) or interp_nd(info):
             ops.append('interp')
         if sigma_ok(info):
             ops.append('interpsigma')
@@ -976,6 +1091,14 @@ def derive_operand(f, op, args):
         return f.renameDimension(o[1], o[2])
     if o[0] == 'reorder':
         return f.reorderDimensions(list(o[1]), list(o[2]))
+    if o[0] == 'insdim':
+        kw = dict(newonly=True, multionly=False)
+        if o[3] == 'before':
+            kw['before'] = o[4]
+        elif o[3] == 'after':
+            kw['after'] = o[4]
+        kw[o[1]] = o[2]
+        return f.insertDimension(**kw)
     raise KeyError(o[0])
 
 
@@ -1040,6 +1163,8 @@ def apply_step(f, step, operand=None):
     if op == 'binop':
         if operand is None:
             operand = derive_operand(f, op, a)
+        if a.get('swap'):
+            f, operand = operand, f
         o = a['op']
         if o == '+':
             return f + operand
@@ -1068,6 +1193,21 @@ def apply_step(f, step, operand=None):
         if o == '!=':
             return f != operand
         raise KeyError(o)
+    if op == 'interp' and a.get('coordkey'):
+        # N-D coordinate: per column, targets at the given fractions of the
+        # column's range, as a variable on the coordinate's dimensions
+        from PseudoNetCDF.core._variables import PseudoNetCDFVariable
+        cv = f.variables[a['coordkey']]
+        vd = tuple(cv.dimensions)
+        ax = vd.index(a['dim'])
+        old = np.asarray(np.ma.getdata(cv[...]), dtype='f8')
+        lo = old.min(axis=ax, keepdims=True)
+        hi = old.max(axis=ax, keepdims=True)
+        fr = np.array(a['fracs'], dtype='f8').reshape(
+            [len(a['fracs']) if j == ax else 1 for j in range(old.ndim)])
+        new = PseudoNetCDFVariable.from_array('new', lo + fr * (hi - lo), vd)
+        return f.interpDimension(a['dim'], new, coordkey=a['coordkey'],
+                                 extrapolate=a['extrapolate'])
     if op == 'interp':
         return f.interpDimension(a['dim'], np.array(a['new'], dtype='f8'),
                                  extrapolate=a['extrapolate'])
